@@ -165,3 +165,37 @@ def solve_entry(h):
     h.check('stale-exit-request-cleared-before-the-run', 'flag is False', flag=run[0][3] if run else None)
     proc = [x for x in seq if x[0] == 'process']
     h.check('keyword-settings-reach-_process_inputs', 'ok', ok=bool(proc) and 'constraints' in h.st.heap[proc[0][1][0]])
+
+
+@contract('C03/AbstractSolver._process_inputs', ['C03', 'C04', 'C07'], A + '::AbstractSolver._process_inputs', native=False)
+def process_inputs(h):
+    """the sticky settings given to Step / Solve as keywords (constraints=, penalty=, the two monitors) are installed
+    through their setters -- each exactly once and only if given -- and the non-sticky ones (callback, disp) are handed
+    back; nothing else is accepted silently into the settings"""
+    if not h.is_sym():
+        h.unsupported('symbolic only')
+    given = h.choice('keywords', [(), ('constraints',), ('penalty', 'callback'), ('constraints', 'penalty', 'EvaluationMonitor', 'StepMonitor', 'disp'),
+                                  ('callback', 'strategy')])
+    vals = {k: h.fn(k.upper(), ret='real') for k in given}
+    if 'disp' in vals:
+        vals['disp'] = True
+    s = h.obj(A + '::AbstractSolver')
+    calls = []
+
+    def setter(name):
+        def f(I, c, args, kwargs):
+            calls.append((name, args[1]))
+            return None
+        return f
+    h.set_summaries({(A, 'AbstractSolver.SetConstraints'): setter('constraints'), (A, 'AbstractSolver.SetPenalty'): setter('penalty'),
+                     (A, 'AbstractSolver.SetEvaluationMonitor'): setter('EvaluationMonitor'),
+                     (A, 'AbstractSolver.SetGenerationMonitor'): setter('StepMonitor')})
+    kw = h.st.alloc('dict', dict(vals))
+    r = h.call(h.getattr(s, '_process_inputs'), kw)
+    sticky = [k for k in given if k in ('constraints', 'penalty', 'EvaluationMonitor', 'StepMonitor')]
+    h.check('every-sticky-setting-installed-once-through-its-setter-and-nothing-else',
+            'ok', ok=(sorted(n for n, _ in calls) == sorted(sticky) and all(v is vals[n] for n, v in calls)))
+    cell = h.st.heap[r]
+    want_cb = vals.get('callback')
+    h.check('callback-and-disp-handed-back-other-keywords-not-smuggled-in',
+            'ok', ok=(set(cell) == {'callback', 'disp'} and cell['callback'] is want_cb and cell['disp'] == (True if 'disp' in vals else 0)))
